@@ -1,4 +1,46 @@
-// unit `socone_ops` : draft
+// unit `socone_ops` : everything of cones/socone.rs that units `soc_step` / `rectify` do not cover
+// (those have: _step_length_soc_component, step_length, set_identity_scaling, margins, scaled_unit_shift, _soc_residual, rectify_equilibration).
+// float model: F-real (prelude/float_real_axioms.rs over prelude/float_opaque.rs).  Level 1: every contract states the written
+// entries as the exact float expression the code evaluates (which operations, on which elements, in which order; dot products and
+// sums as the left folds of prelude/vecmath_contract.rs) - needs no axiom.  Level 2: the F-real reading (exact reals) of those
+// contracts is proved to BE the mathematical object of the code comments / the Clarabel paper (lemmas (i)-(v) below).
+//
+// PROVED from the real bodies (extracted, never retyped), with frames (lengths kept, nothing else written, cone state unchanged
+// unless stated; operands of numel() entries as at the call sites):
+//   SecondOrderConeSparseData::new (u = v = 0, d = 1);
+//   SecondOrderCone: new (dim >= 2 is the assert!; w = lambda = 0, eta = 0; sparse data present <=> dim > 4), degree (1), numel (dim),
+//     is_symmetric, allows_primal_dual_scaling (true), is_sparse_expandable = Hs_is_diagonal (sparse data present),
+//     unit_initialization (z = s = (0 + 1, 0, .., 0)), scaled_unit_shift (second copy, callee),
+//     update_scaling (false and state untouched iff sqrt-resid of z or s is 0; false (lambda, sparse data untouched) iff that of the
+//       unnormalised w is 0; else eta = us_eta, w = us_w, lambda = us_lambda and, if allocated, d = us_d, u = us_u, v = us_v: the spec
+//       fns `us_*` spell out every operation),
+//     get_Hs (sparse: eta^2 (d, 1, .., 1); dense: entry (row, col), row <= col, of eta^2 (2 w w' - J) at col (col + 1) / 2 + row: is_dense_Hs),
+//     mul_Hs (y = eta^2 (2 <w,x> w - J x): mulHs_seq), affine_ds (lambda o lambda), combined_ds_shift through the real text of
+//     SymmetricConeUtils::_combined_ds_shift_symmetric at C = SecondOrderCone (step_z <- W step_z, step_s <- W^{-1} step_s,
+//     shift = step_s o step_z with -sigma*mu added to entry 0 only), Delta_s_from_Delta_z_offset (ds_offset_seq), compute_barrier
+//     (-(1/2) logsafe(resid(s + a ds) resid(z + a dz)) inside the cone, +inf otherwise), lambda_inv_circ_op, mul_W, mul_Winv, circ_op,
+//     inv_circ_op;
+//   free functions: _circ_op (x0 = <y,z>, x1 = y0 z1 + z0 y1), _inv_circ_op (inv_circ_seq), _soc_mul_W_inner (mulW_seq),
+//     _soc_mul_Winv_inner (mulWinv_seq), _soc_residual (second copy), _sqrt_soc_residual, _soc_residual_shifted;
+//     VectorMath::dot_shifted (real body, called through rule R32) and ScalarMath::logsafe (real body).
+//   Level 2 (F-real, all closed):
+//     (i)   lemma_circ_inv_circ:  y o (y \ z) = z  for y0 != 0, y0^2 != |y1|^2  (circ_op applied to what inv_circ_op returns);
+//     (ii)  lemma_W_Winv:  mul_Winv(mul_W(x)) = x  (alpha = 1, beta = 0) for w0 > 0, w0^2 - |w1|^2 = 1 (`w_normalised`), eta != 0;
+//     (iii) lemma_Hs_is_mulHs (C11):  the packed triangle get_Hs writes, read as a symmetric matrix and applied to x, is mul_Hs(x);
+//     (iv)  lemma_nt_identities (C13):  whenever update_scaling returns true for interior s, z, the (w, eta, lambda) it wrote satisfy
+//           w_normalised(w), eta > 0, mul_W(z) = mul_Winv(s) = lambda entry for entry (so the hypothesis of (ii) is established);
+//     (v)   lemma_sparse_expansion (C11, sparse form):  D + u u' - v v' = 2 w w' - J for the d, u, v update_scaling writes.
+// ASSUMED:
+//   * prelude/float_real_axioms.rs (the F-real axiom group), prelude/std_assumed.rs (`<[T]>::fill`), prelude/vecmath_assumed.rs
+//     (copy_from, scale, axpby, waxpby, scalarop_from, dot, sumsq, norm: proved in unit `vecmath`);
+//   * num_traits scalar helpers the prelude lacks: `is_zero` (= `== 0`), `SQRT_2`, `ln` (uninterpreted symbols f_sqrt2, f_ln);
+//   * "real square root" (local block `sqrt_ax`, ADMITTED): for x >= 0, sqrt(x) >= 0 and sqrt(x)^2 == x; SQRT_2 > 0, SQRT_2^2 == 2;
+//     the literal 0.5 is one half.  Used ONLY by the Level-2 lemmas, never by a function contract.  canary_sqrt must FAIL.
+//   * (iv) takes "update_scaling returned true" as hypothesis; that interior s, z always make it return true (Cauchy-Schwarz:
+//     <s, z> > 0) is not proved.
+// DROPPED: nothing of the file.  (NaN / inf / rounding are outside the F-real model; the symbol-level contracts hold for them too.)
+// Stability: update_scaling, get_Hs, Delta_s_from_Delta_z_offset run in their own solver process (spinoff_prover; in the shared
+// module context update_scaling was bimodal, 2 M vs 60-90 M rlimit units depending on the seed); heaviest function < 3 M units.
 use vstd::prelude::*;
 verus! {
 //@include prelude/float_opaque.rs
